@@ -23,7 +23,7 @@ BINARY = ("ADDER", "SUBSTRACTER", "MULTIPLIER", "ABOVE", "BELOW")
 SCALAR = ("SCALAR_ADDER", "SCALAR_MULTIPLIER", "SCALAR_REV_SUBSTRACTER", "SHIFT")
 AGG = ("SUM", "MIN", "MAX", "AVERAGER")
 EXPR_SHAPES = ("add", "mullit", "litsub", "twotemp", "reflex", "diff", "integ", "xshift",
-               "copy", "three", "absf", "avgdev", "sumfn")
+               "copy", "three", "absf", "avgdev", "sumfn", "alias", "literal", "xfrom")
 NOEQ_SHAPES = ("add", "twotemp", "diff", "mullit", "absf", "avgdev")
 T0 = (2020, 3, 1, 0, 0, 0, 0)
 NAN = float("nan")
@@ -128,6 +128,7 @@ class TrackWorld(World):
         simfs.reset_globals()
         self.real = {}
         self.model = {}
+        self.derived = {}
         self.counter = 0
         self.tagc = 0
 
@@ -454,6 +455,16 @@ class TrackWorld(World):
             if self.violations:
                 return
             self._check_track(prop, s, where)
+        # tracks returned earlier by the slicing operators: their feature table is a copy
+        # taken when they were created and must not follow later changes of the source
+        for s, d in sorted(self.derived.items()):
+            if self.violations:
+                return
+            listed = d["track"].getListAnalyticalFeatures()
+            if sorted(listed) != sorted(d["names"]):
+                self.fail("C04", "derived.table_aliased", "%s: the feature table of the track returned earlier by "
+                          "%s (session %d) changed with its source" % (where, d["where"], s), sorted(d["names"]),
+                          listed)
 
     def _check_derived(self, prop, res, exp_obs, names, where, check_feats=True):
         if res is None or not hasattr(res, "getObs"):
@@ -502,6 +513,7 @@ class TrackWorld(World):
         m = {"obs": [{"x": o[0], "y": o[1], "z": o[2], "t": list(o[3]), "f": {}} for o in st["obs"]],
              "names": [], "fresh": {}, "geo": 0}
         self.real[s], self.model[s] = t, m
+        self.derived.pop(s, None)
         for nm, vals in (st.get("feats") or {}).items():
             if len(vals) != len(m["obs"]) or not m["obs"]:
                 continue
@@ -519,6 +531,7 @@ class TrackWorld(World):
         if exc is not None:
             return self._unexpected("C01", exc, "copy")
         self.real[to], self.model[to] = cp, copy.deepcopy(m)
+        self.derived.pop(to, None)
         self.probe("fork")
         self._check_all("C01", "fork")
 
@@ -837,6 +850,10 @@ class TrackWorld(World):
             return "I{%s}" % a, self._m_unary("INTEGRATOR", A), [a], 1
         if sh == "copy":
             return "%s*1" % a, [v * 1.0 for v in A], [a], 1
+        if sh == "alias":
+            return "%s" % a, list(A), [a], 0
+        if sh == "literal":
+            return L, [float(lit)] * len(A), [], 0
         if sh == "absf":
             return "ABS{%s-%s}" % (a, L), [abs(v - float(lit)) if v == v else NAN for v in A], [a], 2
         if sh in ("avgdev", "sumfn"):
@@ -870,6 +887,17 @@ class TrackWorld(World):
             text = "x=x+%s" % self._lit(st["lit"])
             exp = [o["x"] + float(st["lit"]) for o in m["obs"]]
             ntemp = 1
+        elif sh == "xfrom":
+            if st["a"] not in m["names"]:
+                raise Skip()
+            col = self._col(m, st["a"])
+            if any(not isinstance(v, float) or v != v for v in col):
+                raise Skip()
+            out = "x"
+            text = "x=%s" % st["a"]
+            exp = list(col)
+            ntemp = 0
+            self.probe("coordinate_assigned_from_stored_feature")
         else:
             out = st["out"]
             ins = [st["a"]] + ([st["b"]] if sh in ("add", "twotemp", "three") else []) + \
@@ -1090,8 +1118,11 @@ class TrackWorld(World):
             self.probe("empty_result")
         self._check_derived("C04", rv, exp, m["names"], where, check_feats)
         if not self.violations:
+            if check_feats:
+                self.derived[st.get("s", 0)] = {"track": rv, "names": list(m["names"]), "where": where}
             self._check_all("C04", where + " (source must be unchanged)")
         self.observed([o["z"] for o in exp])
+        return rv
 
     def op_extract(self, st):
         t, m = self._sess(st)
@@ -1111,8 +1142,18 @@ class TrackWorld(World):
             self.probe("span_with_reversed_bounds")
         lo, hi = min(a, b), max(a, b)
         exp = [o for o in m["obs"] if lo <= tuple(o["t"]) <= hi]
-        self._derive(st, "extractSpanTime", lambda: t.extractSpanTime(ObsTime(*st["t1"]), ObsTime(*st["t2"])),
-                     exp, m)
+        rv = self._derive(st, "extractSpanTime", lambda: t.extractSpanTime(ObsTime(*st["t1"]), ObsTime(*st["t2"])),
+                          exp, m)
+        if exp and not self.violations and rv is not None and hasattr(rv, "createAnalyticalFeature"):
+            # extractSpanTime copies the observations, so the result is an independent track:
+            # a feature created on it must leave the source exactly as it was
+            _, exc = self.call(rv.createAnalyticalFeature, "zz", 0.0)
+            if exc is not None:
+                return self._unexpected("C04", exc, "createAnalyticalFeature on the result of extractSpanTime")
+            if st.get("s", 0) in self.derived:
+                self.derived[st.get("s", 0)]["names"] = list(m["names"]) + ["zz"]
+            self.probe("feature_created_on_span_result")
+            self._check_all("C04", "feature created on the track returned by extractSpanTime (source must be unchanged)")
 
     def op_concat(self, st):
         t, m = self._sess(st)
